@@ -56,13 +56,18 @@ func VerifC15NameUnique() {
 	first := []Channel{mk("first")}
 	verifAssert("first-create-accepted", s.create(ctx, db, &first, CreateOptions{}) == nil)
 	second := []Channel{mk("second")}
-	if verifBool("second.carries-the-first-key") {
+	carried := verifBool("second.carries-the-first-key")
+	if carried {
 		second[0].Leaseholder, second[0].LocalKey = first[0].Leaseholder, first[0].LocalKey
 	}
 	taken := second[0].Name == first[0].Name
 	err2 := s.create(ctx, db, &second, CreateOptions{})
 	verifObserveBool("second-err", err2 != nil)
-	verifAssert("create-accepted-iff-name-free", (err2 == nil) == !taken)
+	// Known finding C15-create-with-existing-key-duplicates-name: a struct that carries the key of the existing
+	// holder of its name is exempted from the conflict check and then given a fresh key.
+	const finding = "C15-create-with-existing-key-duplicates-name"
+	known := taken && carried
+	verifAssertKnown("create-accepted-iff-name-free", (err2 == nil) == !taken, finding, known)
 	// (the refusal is a validate.PathError, which errors.Is does not see through: the error kind is not asserted)
 	var meta []Channel
 	verifAssert("metadata-scan-ok", s.table.NewRetrieve().Entries(&meta).Exec(ctx, db) == nil)
@@ -74,11 +79,11 @@ func VerifC15NameUnique() {
 			}
 		}
 	}
-	verifAssert("no-two-channels-share-a-name", unique)
+	verifAssertKnown("no-two-channels-share-a-name", unique, finding, known)
 	want := 2
 	if taken {
 		want = 1
 	}
-	verifAssert("refused-create-changes-nothing", len(meta) == want && len(cesium.HarnessChannels(s.cfg.TSChannel)) == want)
+	verifAssertKnown("refused-create-changes-nothing", len(meta) == want && len(cesium.HarnessChannels(s.cfg.TSChannel)) == want, finding, known)
 	verifReach("end")
 }
